@@ -482,7 +482,7 @@ int main(int argc, char *argv[]) {
     tokenise();
     if (h_nw == 0) continue;
     op = h_w[0];
-    alarm(120);
+    alarm(20); /* a shrunk (inconsistent) distributed grid may leave ranks waiting for each other: give up quickly */
     if (0 == strcmp(op, "reset")) {
       if (h_nw == 4 && valid_is(1, 3) && h_i(h_w[1]) == np && h_i(h_w[2]) <= 1) {
         drop_all();
